@@ -11,6 +11,15 @@ na_path = os.path.join(ROOT, "props", "not_applicable.json")
 na = json.load(open(na_path)) if os.path.exists(na_path) else {}
 hooks_path = os.path.join(ROOT, "props", "hooks.json")
 hooks = json.load(open(hooks_path)) if os.path.exists(hooks_path) else {"source_commits": []}
+# hook commits = every commit on /repo main whose subject starts with "verif:" (kept in props/hooks.json so the manifest can be regenerated without /repo)
+try:
+    out = subprocess.run(["git", "-C", "/repo", "log", "--reverse", "--format=%h %s", "76596b2..main"], capture_output=True, text=True).stdout
+    found = [l.split(" ", 1)[0] for l in out.split("\n") if " " in l and l.split(" ", 1)[1].startswith("verif:")]
+    if found:
+        hooks = {"source_commits": found}
+        json.dump(hooks, open(hooks_path, "w"))
+except OSError:
+    pass
 man = {
  "version": 1,
  "setup_cmd": "./setup.sh",
